@@ -13,4 +13,5 @@ b pro cargo build --release --offline --features prohibit-unsafe
 b u16 cargo build --release --offline --features utf16
 b u16dbg cargo build --profile dbg --offline --features utf16
 b nostd cargo build --release --offline --no-default-features --features nostd,pikevm
+b pat cargo +nightly build --release --offline --features pattern
 exit $fail
